@@ -6,6 +6,12 @@ def run_registry(ctx, mon_cfg, nl, ns):
     core.design_check(ctx, "Registry.tla", "Registry.cfg", timeout=1500)
     lsn = core.generate(ctx, "Gen_Registry.tla", "Gen_Registry_Lsn.cfg", nl, 9, ctx.seed, timeout=900) if nl > 0 else []
     svc = core.generate(ctx, "Gen_Registry.tla", "Gen_Registry_Svc.cfg", ns, 9, ctx.seed, timeout=900)
+    if nl > 0:
+        import random
+        ed = core.generate(ctx, "Gen_Registry.tla", "Gen_Registry_Edit.cfg", 0, 0, ctx.seed, bfs=True, timeout=900)
+        random.Random(ctx.seed).shuffle(ed)
+        lsn += ed[:nl * 3]
+    svc += core.generate(ctx, "Gen_Registry.tla", "Gen_Registry_Dup.cfg", 0, 0, ctx.seed, bfs=True, timeout=900)
     ctx.say("  behaviours: %d listener walks (<= 2 HTTP listeners each) + %d service-connection walks" % (len(lsn), len(svc)))
     behs = lsn + svc
     hb = core.build_harness(ctx)
